@@ -346,6 +346,7 @@ func (p *Prog) flatten() {
 	/* Values carried in local struct variables are used where they end up. */
 	for _, f := range tops {
 		if !isHelper(f) {
+			ssa.SplitLocalStructs(f)
 			ssa.ForwardStructFields(f)
 		}
 	}
